@@ -82,8 +82,14 @@ class C13(Check):
         # the application itself has a request outstanding (waiting for its answer) whose Hop-by-Hop
         # identifier happens to equal the one the peer chose for one of its requests
         local_pending = rng.random() < 0.25
-        return {"apps_per_worker": apps_per_worker, "routes": routes, "reqs": reqs, "early_send": early, "local_pending": local_pending,
-                "sched": draw_sched_b(rng), "knobs": knobs, "horizon": 40.0}
+        scn = {"apps_per_worker": apps_per_worker, "routes": routes, "reqs": reqs, "early_send": early, "local_pending": local_pending,
+               "sched": draw_sched_b(rng), "knobs": knobs, "horizon": 40.0}
+        # later additions draw from a generator of their own (the stream above stays what it was)
+        rng2 = random.Random(rng.getrandbits(48))
+        # a second Bromelia object lives in the same process and registers handlers of its own for the same
+        # (and for more) command pairs, before or after this one does: none of them may ever run here
+        scn["second_app"] = rng2.choice([None, None, "before", "after"])
+        return scn
 
     def shrink(self, scn):
         rq = scn["reqs"]
@@ -186,9 +192,26 @@ class C13(Check):
                 handler.__name__ = "route_%d_%d" % (appid, code)
                 return handler
 
+            def register_foreign():
+                app2 = wb.build_second_app(scn["apps_per_worker"])
+                for ai in sorted(set(i for idxs in scn["apps_per_worker"] for i in idxs)):
+                    for code in CODES:
+                        def foreign(request, ai=ai, code=code):
+                            invocations.append((("foreign", APPS[ai][2], code), request.header.hop_by_hop.hex(), sim.steps))
+                            return DiameterAnswer(command_code=code, application_id=APPS[ai][2], avps=[
+                                SessionIdAVP(b"foreign;0;0"), ResultCodeAVP(DIAMETER_SUCCESS),
+                                OriginHostAVP(LOCAL_HOST), OriginRealmAVP(LOCAL_REALM)])
+                        foreign.__name__ = "foreign_%d_%d" % (APPS[ai][2], code)
+                        app2.route(application_id=APPS[ai][2].to_bytes(4, "big"),
+                                   command_code=code.to_bytes(3, "big"))(foreign)
+                stats["second_app"] = 1
+                return app2
+            app2 = register_foreign() if scn.get("second_app") == "before" else None
             for ai, code in scn["routes"]:
                 app.route(application_id=APPS[ai][2].to_bytes(4, "big"),
                           command_code=code.to_bytes(3, "big"))(make_handler(ai, code))
+            if scn.get("second_app") == "after":
+                app2 = register_foreign()
             if scn.get("early_send"):
                 from bromelia.avps import DestinationRealmAVP
                 for w_ in wb.workers:
